@@ -1,10 +1,10 @@
 package main
 
 import (
-	"regexp"
-	"sort"
 	"encoding/json"
 	"fmt"
+	"regexp"
+	"sort"
 	"strings"
 
 	"verifharness/gen"
@@ -191,9 +191,18 @@ func c15Batch(w *Worker, cases []*genCase, name string) {
 		packed *lrm.Machine
 	}
 	var ents []*ent
+	// every grammar twice: actions that always assign $$, and actions of which every second one does not
+	var both []*genCase
+	for _, c := range cases {
+		both = append(both, c)
+		if c.Shape == gen.UseAll && c.Tags == nil {
+			both = append(both, &genCase{Origin: c.Origin, Spec: c.Spec, Shape: gen.Mixed})
+		}
+	}
+	cases = both
 	for i, c := range cases {
 		g := ref.FromSpec(c.Spec)
-		d := gen.Decorate(c.Spec, nil, gen.UseAll)
+		d := gen.Decorate(c.Spec, c.Tags, c.Shape)
 		o := &obs{c: c, g: g, d: d, items: map[string]*gen.Item{}}
 		res := ygo.Build(d.Source(gen.Go, "model"), ygo.Options{Fuel: buildFuel})
 		if !res.OK() {
